@@ -107,6 +107,13 @@ def enumerated(tier, seed):
     for i, n in enumerate((150000, 250001, 65537)):
         out.append({"loader": "marginal_sampling", "path": "class" if i % 2 else "dispatch_enum", "sizes": [2, 3], "seed": seed + 30 + i,
                     "n_samples": n, "bounds": [[0, 3], [1, 2]], "marginals": [t(31 + i), t(41 + i)]})
+    # genuine probability mass functions on bounds that hold all but 1e-7 .. 1e-12 of their mass: the result is still
+    # the *normalised* product (sums to 1 to rounding), not the raw one
+    for i, (m1, b1, m2, b2) in enumerate([(2.5, [0, 15], 1.0, [0, 12]), (1.0, [0, 11], 0.5, [0, 9]), (4.0, [0, 22], 0.3, [0, 7])]):
+        out.append({"loader": "marginal", "path": "class" if i % 2 else "dispatch_str", "sizes": [2, 3], "seed": seed + 50 + i,
+                    "bounds": [b1, b2], "marginals": [{"kind": "poisson", "m": m1}, {"kind": "poisson", "m": m2}]})
+    out.append({"loader": "marginal", "path": "class", "sizes": [2], "seed": seed + 54, "bounds": [[0, 21]],
+                "marginals": [{"kind": "exponential", "a": 0.6931471805599453}]})
     # a joint function written in exact integer arithmetic on the degrees it is handed (wide box: 3**k exceeds 2**63)
     for path in ("class", "dispatch_str"):
         out.append({"loader": "function", "path": path, "sizes": [2, 3], "seed": seed + 6, "fkind": "intpow",
